@@ -667,3 +667,76 @@ package providers
 //@ ensures[failed-lookup-assigns-nothing] called(UnmarshalSimpleJSON) && ret1(UnmarshalSimpleJSON) != nil ==> result != nil
 //@     && !stored("SessionState.User") && !stored("SessionState.Email") && !stored("SessionState.Groups")
 //@ ensures[an-address-or-an-error] result == nil ==> stored("SessionState.Email")
+
+// the Directory lookup behind Google group restrictions: every failure (API error of any status, transport or decode failure)
+// means "not a member", never a crash
+//@ func userInGroup
+//@ safety
+//@ prop C14 C19 C08
+//@ requires[config:admin-service-built-by-the-library-constructor] service != nil && service.Members != nil
+//@ ensures[member-only-on-an-answer-that-says-so] result ==> (called(Do#0) && ret1(Do#0) == nil) || (called(Do#1) && ret1(Do#1) == nil)
+
+// ------------------------------------------------------------------ C05: the default login URL carries the parameters the caller computed for this login
+// (the PKCE challenge and its method travel in extraParams): the very same map reaches the URL builder, with at most a response mode added
+//@ func (*ProviderData).GetLoginURL
+//@ safety
+//@ prop C05 C03
+//@ at call makeLoginURL assert[the-callers-parameters-reach-the-url] arg(makeLoginURL, 3) == extraParams && arg(makeLoginURL, 1) == redirectURI
+//@     && arg(makeLoginURL, 2) == state && arg(makeLoginURL, 0) == p
+//@ at call Add assert[only-a-response-mode-is-added] arg(Add, 1) == "response_mode" && arg(Add, 2) == p.AuthRequestResponseMode
+//@ ensures[the-built-url-is-returned] called(makeLoginURL) && result == ret(String)
+
+// ------------------------------------------------------------------ C08 / C14: GitLab's own enrichment (userinfo endpoint, project access)
+//@ nonnil GitLabProvider.OIDCProvider
+//@ stable GitLabProvider.allowedProjects gitlabProject.*
+//@ prop C08 C19
+//@ scan[gitlab-projects-written-by-their-setter] field-writers GitLabProvider.allowedProjects providers.(*GitLabProvider).setAllowedProjects
+//@ scan[gitlab-project-entries-written-where-they-are-parsed] field-writers gitlabProject.* providers.newGitlabProject
+//@ scan[gitlab-projects-set-by-the-constructor-only] callers (*GitLabProvider).setAllowedProjects providers.NewGitLabProvider
+
+//@ func newGitlabProject
+//@ safety
+//@ prop C08 C19
+//@ ensures[nonnil:a-project-or-an-error] ret1 == nil ==> ret0 != nil
+
+//@ func (*GitLabProvider).EnrichSession
+//@ safety
+//@ prop C14 C08
+//@ ensures[failed-userinfo-lookup-assigns-nothing] called(getUserinfo) && ret1(getUserinfo) != nil ==> result != nil && !stored("SessionState.User")
+//@     && !stored("SessionState.Email") && !stored("SessionState.Groups") && !called(addProjectsToSession)
+//@ at call addProjectsToSession assert[only-after-a-decoded-userinfo-with-a-verified-email] ret1(getUserinfo) == nil
+//@     && (p.AllowUnverifiedEmail || ret0(getUserinfo).EmailVerified) && arg(addProjectsToSession, 2) == s
+//@ ensures[enriched-or-an-error] result == nil ==> called(addProjectsToSession)
+
+//@ func (*GitLabProvider).getUserinfo
+//@ safety
+//@ prop C14
+//@ requires[config:provider-urls-defaulted] p.LoginURL != nil
+//@ ensures[undecodable-answer-is-an-error] called(UnmarshalInto) && ret(UnmarshalInto) != nil ==> ret0 == nil && ret1 != nil
+//@ ensures[userinfo-or-an-error] ret1 == nil ==> called(UnmarshalInto) && ret(UnmarshalInto) == nil
+//@ ensures[nonnil:userinfo-unless-error] ret1 == nil ==> ret0 != nil
+
+//@ func (*GitLabProvider).getProjectInfo
+//@ safety
+//@ prop C14 C08
+//@ requires[config:provider-urls-defaulted] p.LoginURL != nil
+//@ ensures[undecodable-answer-is-an-error] called(UnmarshalInto) && ret(UnmarshalInto) != nil ==> ret0 == nil && ret1 != nil
+//@ ensures[project-info-or-an-error] ret1 == nil ==> called(UnmarshalInto) && ret(UnmarshalInto) == nil
+//@ ensures[nonnil:project-info-unless-error] ret1 == nil ==> ret0 != nil
+
+// a project entry is added to the session's groups only for a project whose info was fetched, that is not archived, and on
+// which the user has project-level (or, failing that, group-level) access of at least the configured level
+//@ func formatProject
+//@ nomod
+//@ prop C08
+//@ ensures[the-project-group-name] result == gitlabProjectPrefix + project.Name
+
+//@ func (*GitLabProvider).addProjectsToSession
+//@ prop C08 C14
+//@ loop 0 invariant[project-table-index] rangeindex >= -1
+//@ at call formatProject assert[only-fetched-unarchived-projects] ret1(getProjectInfo) == nil && !ret0(getProjectInfo).Archived
+//@ at call formatProject assert[the-project-that-was-looked-up-for-this-session] arg(getProjectInfo, 3) == arg(formatProject, 0).Name && arg(getProjectInfo, 2) == s
+//@ at call formatProject assert[only-with-the-configured-access-level] (ret0(getProjectInfo).Permissions.ProjectAccess != nil
+//@             && ret0(getProjectInfo).Permissions.ProjectAccess.AccessLevel >= arg(formatProject, 0).AccessLevel)
+//@         || (ret0(getProjectInfo).Permissions.ProjectAccess == nil && ret0(getProjectInfo).Permissions.GroupAccess != nil
+//@             && ret0(getProjectInfo).Permissions.GroupAccess.AccessLevel >= arg(formatProject, 0).AccessLevel)
